@@ -273,6 +273,19 @@ class SpecRewriter(ast.NodeTransformer):
                     func=ast.Name(id="all", ctx=ast.Load()),
                     args=[ast.GeneratorExp(elt=body, generators=gens)],
                     keywords=[])
+            if n == "Sum":
+                var, lo, hi, body = node.args
+                lo, hi, body = self.visit(lo), self.visit(hi), \
+                    self.visit(body)
+                gen = ast.comprehension(
+                    target=ast.Name(id=var.id, ctx=ast.Store()),
+                    iter=ast.Call(func=ast.Name(id="range", ctx=ast.Load()),
+                                  args=[lo, hi], keywords=[]),
+                    ifs=[], is_async=0)
+                return ast.Call(
+                    func=ast.Name(id="sum", ctx=ast.Load()),
+                    args=[ast.GeneratorExp(elt=body, generators=[gen])],
+                    keywords=[])
             if n == "implies":
                 a, b = self.visit(node.args[0]), self.visit(node.args[1])
                 return ast.BoolOp(op=ast.Or(), values=[
@@ -309,8 +322,14 @@ class SpecRewriter(ast.NodeTransformer):
 
 def _eq(a, b):
     try:
-        if isinstance(a, float) and isinstance(b, float):
-            return a == b or (math.isnan(a) and math.isnan(b))
+        if isinstance(a, (float, np.floating)) and \
+                isinstance(b, (float, int, np.floating)) or \
+                isinstance(b, (float, np.floating)) and \
+                isinstance(a, (int, np.floating)):
+            a, b = float(a), float(b)
+            # the proofs are over the reals: compare floats with a tolerance
+            return a == b or (math.isnan(a) and math.isnan(b)) or \
+                math.isclose(a, b, rel_tol=1e-9, abs_tol=1e-12)
         r = a == b
         if isinstance(r, np.ndarray):
             return bool(r.all())
@@ -364,6 +383,9 @@ SPEC_NS = {
     "isfinite": lambda x: bool(np.isfinite(x)),
     "INF": math.inf, "NAN": math.nan, "np": np,
     "pointwise": lambda f, p: f(p),
+    "E": lambda x: float(np.exp(x)), "LOG": lambda x: float(np.log(x)),
+    "real": float,
+    "ext": lambda seq, v: list(seq) + [v],
     "same_function": lambda a, b: a is None or a is b or (
         getattr(a, "table", 0) == getattr(b, "table", 1)
         and getattr(a, "default", 0) == getattr(b, "default", 1)),
